@@ -246,6 +246,25 @@ CLAIMS["C06"] = dict(
                   "reference Script semantics",
     engine="tablex")
 
+CLAIMS["C08"] = dict(
+    cat="other",
+    text="Decides the compositional argument behind the compiler, not its search: (gates) every compile entry point "
+         "reaches the compiler only when is_valid, check_binary_ops and is_safe_nonmalleable pass, insert_elem refuses "
+         "malleable or locally invalid elements, best_compilation returns only a signed, non-malleable B element (all as "
+         "decision tables); (templates) one level of best_compilations, evaluated with opaque sub-compilations for every "
+         "policy variant (leaves, and, or incl. the three and-or configurations and weights, thresholds with every choice "
+         "of the swapped first child, all-key thresholds, n-of-n folding; both signature contexts; with / without "
+         "dissatisfaction probability), builds only fragments whose lift (specification table) has the policy's truth "
+         "table; (casts) each of the 10 casts wraps in the fragment its rule functions belong to, and Type::cast_x "
+         "equals Type::type_check of the wrapper on all ~4300 (cast, child type) pairs, so the unchecked constructor "
+         "attaches the true type.",
+    note="Trusted: spec/semantics.py + spec/policy_sem.py; C05/C06 (types are sound), C07 (lift), C09 (limits used by "
+         "check_local_validity); rustc THIR; evaluator. Cost optimality, ExtData attached by casts (C09 decides the "
+         "rules), taproot key extraction / leaf enumeration / Huffman tree and re-parsing of outputs are not decided.",
+    tech=STATIC + "one-level symbolic evaluation of the dynamic programme with opaque sub-results + truth-table "
+                  "equivalence of lifted templates; decision tables of the gates; rule-pairing table of the casts",
+    engine="symx+tablex")
+
 NA = {
     "C15": "commitment arithmetic over hashes with shape-dependent index arithmetic: no sound structural argument in "
            "reach decides it; structural residue (depth bounds, constructor discipline, cache coherence, order "
